@@ -319,7 +319,16 @@ func meshes3(r *vlib.Run) {
 		if rng.Intn(4) == 0 {
 			// ungrouped order is documented as merely inefficient
 			rng.Shuffle(len(faces), func(i, j int) { faces[i], faces[j] = faces[j], faces[i] })
-			sdf = model3d.GroupedTrianglesToSDF(faces)
+			// the slice handed over belongs to the caller, who goes on using it (re-sorts it, reuses it as
+			// a scratch buffer): the finished field must keep describing the faces it was built from
+			handed := append([]*model3d.Triangle{}, faces...)
+			sdf = model3d.GroupedTrianglesToSDF(handed)
+			rng.Shuffle(len(handed), func(i, j int) { handed[i], handed[j] = handed[j], handed[i] })
+			for i := range handed {
+				if i%2 == 0 {
+					handed[i] = handed[0]
+				}
+			}
 			ctor = "GroupedTrianglesToSDF(ungrouped)"
 		} else {
 			sdf = model3d.MeshToSDF(model3d.NewMeshTriangles(faces))
